@@ -219,7 +219,9 @@ func runSigRepo() int {
 			// (annotations, an artifact type, an empty annotation map) - as it comes from a tag resolution, a listing, a manifest
 			subj := decorate(subjects[it.S], mix(*flagSeed, c.ID, fmt.Sprintf("subj-push-%d", n)))
 			blob := []byte(fmt.Sprintf("envelope-%d-%d-%s", c.ID, n, strings.Repeat("x", n*37)))
-			ann := map[string]string{"io.cncf.notary.x509chain.thumbprint#S256": fmt.Sprintf("[\"%064d\"]", n), ocispec.AnnotationCreated: fmt.Sprintf("2024-02-%02dT00:00:00Z", n+1)}
+			ann := map[string]string{"io.cncf.notary.x509chain.thumbprint#S256": fmt.Sprintf("[\"%064d\"]", n), ocispec.AnnotationCreated: fmt.Sprintf([]string{"2024-02-%02dT00:00:00Z",
+				// the same kind of value in other legal spellings: a zone offset, fractions of a second (what a signer in another zone writes)
+				"2024-02-%02dT16:10:03+08:00", "2024-02-%02dT00:00:00.5Z", "2024-02-%02dT23:59:59.123456789-03:30"}[mix(*flagSeed, c.ID, fmt.Sprintf("created%d", n))%4], n+1)}
 			rec := itemRec{blob: blob, ann: ann}
 			layer := func(b []byte, mt string) ocispec.Descriptor {
 				d, err := oras.PushBytes(ctx, target, mt, b)
